@@ -89,6 +89,10 @@ Definition case_conform_one (input obs : json) : verdict :=
     (* claims that use a reserved name: every output would be malformed, so the only conformant outcome is an error *)
     (if obs_is "err" eo then VOk true
      else VPropFail "Issuer::encode issues an SD-JWT for claims that use a reserved name (_sd, ..., top-level _sd_alg) as a claim name")
+  else if jbool (jget "non_object_claims" input) then
+    (* claims that are not a JSON object: the payload of a JWT is an object, so the only conformant outcome is an error (repair F29) *)
+    (if obs_is "err" eo then VOk true
+     else VPropFail "Issuer::encode issues an SD-JWT for claims that are not a JSON object: its payload is not a JWT claims set")
   else if jbool (jget "own_cnf" input) && obs_is "err" eo then VOk true   (* refusing the conflicting request is conformant *)
   else if negb (obs_is "ok" eo) then VPropFail "Issuer::encode rejects a valid marking"
   else match conform_oracle input (jget "readback" obs) (jstr_or_empty (obs_val eo)) with
